@@ -218,4 +218,17 @@ def syncFaults (sync : SyncObs) (connected ahead : List Nat) : List String :=
    | .gone _ => ["sync-peer-not-connected"]
    | .unknown => ["sync-peer-not-connected"])
 
+/-- (3) at quiescence every connected peer that serves more than our tip has been
+asked for the headers after our tip (its latest `getheaders` starts there). -/
+def aheadNotAsked (ahead asked : List Nat) : List String :=
+  if ahead.all (asked.contains ·) then [] else ["ahead-peer-not-asked"]
+
+/-- Recorded finding: the scenario family "the tip is older than 24 hours, the sync
+peer is level with us, a higher peer connects" (the names the driver gives these
+cases).  `handleNewPeerMsg` asks a new higher peer only when `BlockHeadersSynced()`,
+`startSync` does nothing while a sync peer exists, and `handleInvMsg` ignores every
+peer but the sync peer while not current. -/
+def staleTipLevelSyncPeer (caseName : String) : Bool :=
+  caseName.startsWith "shorter-syncpeer-" && caseName.endsWith "-old-tip"
+
 end Neutrino.Converge
